@@ -55,6 +55,11 @@ type IndexScenario struct {
 	// CtorDefault: the deleters of the "default" name are handed to NewInvalidationIndex instead of
 	// AddCache, and labels of that name are added through AddInvalidationLabels.
 	CtorDefault bool `json:"ctor_default,omitempty"`
+	// CtorSpare (with CtorDefault): the caller built the constructor's argument as a slice with spare capacity
+	// (all := make([]Deleter, 0, n); NewInvalidationIndex(all...)) and keeps appending caches of its own to that
+	// slice afterwards (after the setup and after every AddCache). Those later elements were never registered:
+	// the index must neither call them nor lose a cache it was given through AddCache.
+	CtorSpare bool `json:"ctor_spare,omitempty"`
 }
 
 func init() {
@@ -90,6 +95,7 @@ func genC15(r *rand.Rand, run int, _ string) *Scenario {
 	names := []string{"default", "users", "orders"}[:1+r.IntN(3)]
 	labels := []string{"la", "lb", "lc", "ld"}[:1+r.IntN(4)]
 	ix.CtorDefault = chance(r, 0.4)
+	ix.CtorSpare = ix.CtorDefault && chance(r, 0.5)
 
 	if chance(r, 0.25) {
 		// unusual but valid keys, labels and names
@@ -274,6 +280,25 @@ type ixDelCall struct {
 	failed  bool
 }
 
+// ixDecoy is a cache of the caller that was never handed to the index.
+type ixDecoy struct{ r *ixRun }
+
+func (d *ixDecoy) Delete(_ context.Context, key []byte) error {
+	d.r.e.out.violate("C15.R2", "unregistered-cache-deleted", "Delete(%q) was called on a cache that was never registered with the index (the caller appended it to its own slice after NewInvalidationIndex(slice...) returned)", key)
+
+	return nil
+}
+
+// callerAppends: the caller goes on using the slice it spread into NewInvalidationIndex.
+func (r *ixRun) callerAppends() {
+	if !r.sc.CtorSpare || len(r.ctor) == 0 || len(r.ctor) == cap(r.ctor) {
+		return
+	}
+
+	r.ctor = append(r.ctor, &ixDecoy{r: r})
+	r.e.out.fault("caller_appends_to_ctor_slice")
+}
+
 func (d *ixDeleter) Delete(ctx context.Context, key []byte) error {
 	zs.Yield("deleter.Delete")
 
@@ -320,6 +345,7 @@ type ixRun struct {
 	nDel   int
 	failAt int
 	recs   []*ixRec
+	ctor   []cache.Deleter // the caller's own slice that was spread into NewInvalidationIndex
 
 	// reference model: cache name -> label -> keys (multiset), maintained for sequential runs
 	labels map[string]map[string][]string
@@ -331,6 +357,10 @@ func runIndex(e *env) {
 	out := e.out
 	r := &ixRun{e: e, sc: sc, failAt: sc.FailAt, labels: map[string]map[string][]string{}, added: make([]bool, len(sc.Caches))}
 	var ctor []cache.Deleter
+
+	if sc.CtorSpare {
+		ctor = make([]cache.Deleter, 0, len(sc.Caches)+8)
+	}
 
 	for i, c := range sc.Caches {
 		st := newTRStore(e, c.Backend, true)
@@ -348,6 +378,7 @@ func runIndex(e *env) {
 	}
 
 	r.ix = cache.NewInvalidationIndex(ctor...)
+	r.ctor = ctor
 
 	for i, c := range sc.Caches {
 		if !c.Late && !r.added[i] {
@@ -359,6 +390,8 @@ func runIndex(e *env) {
 	for i := range sc.Setup {
 		r.exec(-1, &sc.Setup[i])
 	}
+
+	r.callerAppends()
 
 	e.setup = false
 	sequential := len(sc.Clients) == 1
@@ -536,6 +569,7 @@ func (r *ixRun) exec(ci int, op *IndexOp) *ixRec {
 		rec.ret = e.s.NextSeq()
 		r.added[op.Cache] = true
 		e.logf("AddCache(%q, #%d)", c.Name, op.Cache)
+		r.callerAppends()
 	case "write":
 		rec.inv = e.s.NextSeq()
 		_ = r.stores[op.Cache].write(context.Background(), []byte(r.sc.Keys[op.Key]), 3)
